@@ -193,7 +193,7 @@ func execute(r *Run) *Result {
 			calls[f.Syscall] = true
 		}
 		var cs []string
-		for _, c := range []string{"read", "openat", "write", "getdents64", "pread64"} {
+		for _, c := range []string{"read", "openat", "write", "getdents64", "pread64", "newfstatat", "statx"} {
 			if calls[c] {
 				cs = append(cs, c)
 			}
